@@ -289,3 +289,39 @@ func Harness_C10_AlsoKnownAsOddEntries() {
 	}
 	verifrt.Assert(verifrt.JSONEqual(strsToIface(uris), strsToIface(want)), "the URIs of the result are the ordered set union / difference")
 }
+
+// Harness_C10_AlsoKnownAsNearMisses: URIs are compared as the strings they are: a URI that differs from an entry by a
+// trailing slash, by letter case or by a surrounding blank is another URI for add (both are kept) and for remove (a
+// miss that is ignored).
+func Harness_C10_AlsoKnownAsNearMisses() {
+	u := "https://aka.example/" + verifrt.AnyAtom("u")
+	near := []string{u + "/", "HTTPS://aka.example/" + verifrt.AnyAtom("u"), u + " ", u + "#"}[verifrt.Choose("near", 4)]
+	var doc document.Document
+	var p patch.Patch
+	var want []string
+	switch verifrt.Choose("case", 4) {
+	case 0: // both in the document, one removed
+		doc = document.Document{"alsoKnownAs": []interface{}{u, near}}
+		p = patch.Patch{patch.ActionKey: patch.RemoveAlsoKnownAs, patch.UrisKey: []interface{}{near}}
+		want = []string{u}
+	case 1:
+		doc = document.Document{"alsoKnownAs": []interface{}{u, near}}
+		p = patch.Patch{patch.ActionKey: patch.RemoveAlsoKnownAs, patch.UrisKey: []interface{}{u}}
+		want = []string{near}
+	case 2: // only one in the document: removing the other is a miss
+		doc = document.Document{"alsoKnownAs": []interface{}{u}}
+		p = patch.Patch{patch.ActionKey: patch.RemoveAlsoKnownAs, patch.UrisKey: []interface{}{near}}
+		want = []string{u}
+	default: // adding the other keeps both
+		doc = document.Document{"alsoKnownAs": []interface{}{u}}
+		p = patch.Patch{patch.ActionKey: patch.AddAlsoKnownAs, patch.UrisKey: []interface{}{near, u}}
+		want = []string{u, near}
+	}
+	res, err := New().ApplyPatches(doc, []patch.Patch{p})
+	if err != nil {
+		verifrt.Fail("a well-formed also-known-as patch fails to apply")
+		return
+	}
+	verifrt.Reach("applied")
+	verifrt.Assert(verifrt.JSONEqual(listOf(res["alsoKnownAs"]), strsToIface(want)), "also-known-as URIs are compared exactly")
+}
